@@ -334,12 +334,13 @@ def _parse_for_verify(raw, plan, amounts):
 def check(ctx, case):
     from props import txplan
     plan = case['plan']
-    if case.get('sign_style', 'per_input') != 'per_input' and any(i.get('keyless') for i in plan['inputs']):
+    if case.get('sign_style', 'per_input') not in ('per_input', 'handoff') and \
+            any(i.get('keyless') for i in plan['inputs']):
         # an input that is known by its address only takes whatever keys a sign() call offers as its own (documented:
         # "if input does not contain any keys, try using provided keys"): keys of other inputs may not be offered to it
         case = dict(case, sign_style='per_input')
         ctx.klass('sign_style.per_input_forced_by_keyless_input')
-    if case.get('sign_style', 'per_input') != 'per_input':
+    if case.get('sign_style', 'per_input') not in ('per_input', 'handoff'):
         # keys handed over without naming an input are offered to every input: a key that also belongs to another
         # input signs there as well
         from copy import deepcopy
@@ -359,7 +360,24 @@ def check(ctx, case):
             # signature commits to it; it carries no signature itself and a transaction with other inputs is no
             # coinbase transaction: whoever signed the rest, this transaction does not verify
             t.add_input('00' * 32, 0xffffffff if case['null_input'] == 'coinbase_n' else 0, value=50000)
-        _sign(t, plan, case.get('sign_style', 'per_input'))
+        if case.get('sign_style') == 'handoff' and not case.get('null_input'):
+            # the first signer of every multisig input signs a copy; its signature travels as data (hex) into a new
+            # transaction object, where the remaining signers sign without anything else happening in between
+            ta = txplan.realise(plan, allow_keyless=False)
+            carried = {}
+            for k, inp in enumerate(plan['inputs']):
+                if inp['kind'].endswith('_ms') and len(inp['signers']) >= 2:
+                    ta.sign(txplan.lib_keys(plan, k)[inp['signers'][0]], index_n=k)
+                    carried[k] = [sg.as_der_encoded().hex() for sg in ta.inputs[k].signatures]
+            t = txplan.realise(plan, allow_keyless=False, signatures=carried)
+            for k, inp in enumerate(plan['inputs']):
+                keys_k = txplan.lib_keys(plan, k)
+                for s_ in (inp['signers'][1:] if k in carried else inp['signers']):
+                    t.sign(keys_k[s_], index_n=k)
+            if carried:
+                ctx.klass('sign_style.handoff_signatures_as_data')
+        else:
+            _sign(t, plan, case.get('sign_style', 'per_input'))
         raw = t.raw()
         if case.get('null_input'):
             ctx.klass('null_input.' + case['null_input'])
@@ -794,7 +812,7 @@ def _strategy(ctx):
                 # the object is (successfully) verified once before it is tampered with: verdicts may not be remembered
                 'verify_first': draw(st.booleans()), 'restore': draw(st.sampled_from([False, False, True])),
                 'resign_one': draw(st.sampled_from([None, None, 0, 1, 2])),
-                'sign_style': draw(st.sampled_from(['per_input', 'per_input', 'keys_no_index', 'one_call'])),
+                'sign_style': draw(st.sampled_from(['per_input', 'per_input', 'keys_no_index', 'one_call', 'handoff'])),
                 'null_input': draw(st.sampled_from([None] * 8 + ['n0', 'coinbase_n'])) if mode != 'partial' else None}
     return cases()
 
